@@ -6,13 +6,17 @@ import Okane.Lemmas.Price
 /-!
 # The price-database file: totality, round trip, loader (C09 / C10 / C06)
 
-* **totality** (`safe_priceDbEntry`, `parsePriceDbRun_total`, `parsePriceDb_total`, `loadPriceDb_total`): for every
-  text the parser returns records or a `ParseError`; no `ParserError::assert`, no fuel-out, and the stream
-  positions `ParseError::new` is built from are nested suffixes of the text.
-* **round trip** (`priceDbEntry_rt`, `parsePriceDb_layout_rt`, `parsePriceDb_rt`): the parser reads back every list of
-  well-formed records printed one per line; also with `\r\n` line ends and any runs of `\r` / `\n` between the lines.
-* **loader** (`loadRecs_ok`, `load_entry`, `load_member`, `load_zero`, `process_priority`): what the builder holds after
-  `load_price_db`, stated with `Price.entryOf`, `Price.contrib`, `Price.bump` of `Lemmas/Price.lean`.
+* **totality** (`safe_priceDbEntry`, `parsedIter_priceDb_total`, `parsePriceDb_total`, `loadPriceDb_total`,
+  `processPriceDb_total`): for every text the parser returns records or a `ParseError`; no `ParserError::assert`, no
+  fuel-out, and the stream positions `ParseError::new` is built from are nested suffixes of the text.
+* **round trip** (`priceDbEntry_body`, `priceDbEntry_rt`, `parsePriceDb_layout_rt`, `parsePriceDb_rt`): the parser reads
+  back every list of well-formed records printed one per line; also with `\r\n` line ends and any runs of `\r` / `\n`
+  between the lines.
+* **rejected texts** (`parsePriceDb_fails_at`, `parsePriceDb_rejects_nonP`, `parsePriceDb_rejects_unterminated`): a line
+  not starting with `P`, and a line that lacks its line end, after any number of well-formed lines; where the error is.
+* **loader** (`loadRecs_ok`, `load_entry`, `load_member`, `load_zero`, `loadPriceDb_of_ok`, `processPriceDb_of_ok`): what
+  the builder holds after `load_price_db`, stated with `Price.entryOf`, `Price.contrib`, `Price.bump` of
+  `Lemmas/Price.lean`.  The statements are re-exported (with non-vacuity examples) at the end of `Props/C09.lean`.
 -/
 set_option linter.unusedSimpArgs false
 namespace Okane.PriceDbFile
@@ -545,10 +549,6 @@ theorem load_member {rs : List PriceRec} {s s' : Store} {b b' : Builder String}
     r.rate.toRat * (1 / r.rate.toRat) = 1 := by
   have hev : eventOf r (canon s r.target) (canon s r.commodity) ∈ eventsOf s rs := by
     simp only [eventsOf, List.mem_map]; exact ⟨r, hr, rfl⟩
-  have hz : ¬ ((1 : Rat) = 0 ∨ r.rate.toRat = 0) := by
-    intro hh; rcases hh with hh | hh
-    · exact absurd hh (by decide)
-    · exact hx hh
   have h1 : (r.date, r.rate.toRat) ∈
       contrib1 (eventOf r (canon s r.target) (canon s r.commodity)) (canon s r.commodity) (canon s r.target) := by
     have e : r.rate.toRat / 1 = r.rate.toRat := by grind
